@@ -129,6 +129,20 @@ pub fn corpus(idx: usize, seed: u64, w: &mut dyn Write, thorough: bool) -> Optio
                 g.step(&x("bobby", vec![], MMsg::WP { id: l1 }));
             }
             g.battery_drain();
+            // the holder of a fee-bearing proceeds bucket buys his OWN listing with it: the pending fee is deposited by that
+            // purchase like by any other
+            g.step(&x("carol", natives(&[(2, "uosmo")]), MMsg::CL { id: 36, create: create(&[(3000, JUNO_DENOM), (3000, USDC_DENOM)]) }));
+            g.step(&x("carol", vec![], MMsg::FI { id: 36, seconds: 600 }));
+            g.step(&x("david", natives(&[(3000, JUNO_DENOM), (3000, USDC_DENOM)]), MMsg::CB { id: 36 }));
+            g.step(&x("david", vec![], MMsg::BL { listing_id: 36, bucket_id: 36 }));
+            let held = g.h.sim.buckets().into_iter().find(|((o, id), _)| o.as_str() == "carol" && *id == 36).map(|(_, b)| b.funds).expect("proceeds bucket");
+            g.step(&x("carol", natives(&[(4, "uosmo")]), MMsg::CL { id: 37, create: Create { ask: gbal_to_raw(&held), whitelist: None } }));
+            g.step(&x("carol", vec![], MMsg::FI { id: 37, seconds: 600 }));
+            g.step(&x("carol", vec![], MMsg::BL { listing_id: 37, bucket_id: 36 }));
+            g.battery_faults();
+            g.step(&x("carol", vec![], MMsg::WP { id: 37 }));
+            g.step(&x("carol", vec![], MMsg::RB { id: 36 }));
+            g.step(&x("david", vec![], MMsg::WP { id: 36 }));
             // one bucket travels through three purchases without being withdrawn (a fee is pending at each hop and is
             // deposited by the next purchase), topped up between hops so that it matches the next ask
             g.step(&x("alice", natives(&[(1, "uosmo")]), MMsg::CL { id: 41, create: create(&[(2000, JUNO_DENOM), (2000, USDC_DENOM)]) }));
@@ -1011,6 +1025,42 @@ pub fn boundary(idx: usize, seed: u64, w: &mut dyn Write, thorough: bool) -> Opt
                 g.probe(&x(who, vec![], MMsg::DL { id: 1 }));
             }
             g.battery_queries();
+            g.battery_drain();
+            Some(g.stats)
+        }
+        28 => {
+            // the largest payouts there are: a fee-bearing record holding one native denomination and 24 NFTs pays out with
+            // 26 messages (bank send, 24 transfers, community-pool deposit); both sides of a purchase, then every exit
+            let mut g = Gen::start(royalty_world(26), "boundary:28 payouts of 26 messages", seed, w, thorough);
+            let colls = g.h.sim.cw721_addrs().to_vec();
+            let side = |g: &Gen, who: &str| -> GenericBalance {
+                GenericBalance {
+                    native: natives(&[(1000, JUNO_DENOM)]),
+                    cw20: vec![],
+                    nfts: colls
+                        .iter()
+                        .take(24)
+                        .map(|c| {
+                            let tid = g.h.sim.nft_owners(c).into_iter().find(|(_, o)| o == who).map(|(t, _)| t).unwrap();
+                            Nft { contract_address: Addr::unchecked(c.as_str()), token_id: tid }
+                        })
+                        .collect(),
+                }
+            };
+            let goods = side(&g, "alice");
+            let pay = side(&g, "bobby");
+            for op in g.deposit_ops("alice", &goods, 1, Some(Create { ask: gbal_to_raw(&pay), whitelist: None })) {
+                g.step(&op);
+            }
+            g.step(&x("alice", vec![], MMsg::FI { id: 1, seconds: 600 }));
+            for op in g.deposit_ops("bobby", &pay, 1, None) {
+                g.step(&op);
+            }
+            g.step(&x("bobby", vec![], MMsg::BL { listing_id: 1, bucket_id: 1 }));
+            g.battery_queries();
+            g.battery_faults();
+            g.step(&x("bobby", vec![], MMsg::WP { id: 1 }));
+            g.step(&x("alice", vec![], MMsg::RB { id: 1 }));
             g.battery_drain();
             Some(g.stats)
         }
